@@ -42,8 +42,45 @@ def assemble(ep):
     return tot, mag
 
 
+def assemble_scaled(ep):
+    """mid-iteration form of the invariant: every message counts times its node's running scale"""
+    f = ep.factors
+    n = ep.node_posterior.shape[0]
+    sc = np.asarray(f.scale)
+    tot = np.zeros((n, 2))
+    mag = np.zeros((n, 2))
+    for arr, ir, il in ((np.asarray(f.edge), ep.edge_parents, ep.edge_children),
+                        (np.asarray(f.block), ep.block_nodes[0], ep.block_nodes[1])):
+        if arr.shape[0]:
+            np.add.at(tot, ir, arr[:, 0] * sc[ir, None])
+            np.add.at(tot, il, arr[:, 1] * sc[il, None])
+            np.add.at(mag, ir, np.abs(arr[:, 0]) * sc[ir, None])
+            np.add.at(mag, il, np.abs(arr[:, 1]) * sc[il, None])
+    node = np.asarray(f.node)
+    tot += (node[:, 0] + node[:, 1]) * sc[:, None]
+    mag += (np.abs(node[:, 0]) + np.abs(node[:, 1])) * sc[:, None]
+    return tot, mag
+
+
 def _iterate(self, *a, **k):
-    r = _orig_iterate(self, *a, **k)
+    try:
+        r = _orig_iterate(self, *a, **k)
+    except BaseException as e:  # noqa
+        # the iteration died half-way: judge the bookkeeping as it stands (messages x running scale)
+        st = _st.setdefault("s", {"n": 0, "viol": [], "max_res": 0.0, "rescale_tests": 0, "max_rescale_dev": 0.0})
+        st["aborted"] = type(e).__name__
+        try:
+            tot, mag = assemble_scaled(self)
+            post = np.asarray(self.node_posterior)
+            res = np.abs(tot - post)
+            if np.any(res > 1e-9 * np.maximum(mag, 1e-300) + 1e-300) or not np.all(np.isfinite(tot)):
+                j = int(np.unravel_index(np.nanargmax(res / np.maximum(mag, 1e-300)), res.shape)[0])
+                st["viol"].append(("messages-do-not-sum-to-posterior:when-iteration-aborted",
+                                   f"iteration {st['n'] + 1} raised {type(e).__name__}; at that moment messages x scale to node {j} "
+                                   f"sum to {tot[j].tolist()} but its posterior is {post[j].tolist()}"))
+        except Exception:
+            pass
+        raise
     st = _st.setdefault("s", {"n": 0, "viol": [], "max_res": 0.0, "rescale_tests": 0, "max_rescale_dev": 0.0})
     st["n"] += 1
     scale = np.asarray(self.factors.scale)
@@ -126,7 +163,11 @@ def case(ctx, i, rec):
     if i < 3:
         rec.sample = dict(recipe=r, kw={k: repr(v) for k, v in kw.items()})
     st = _st.get("s")
-    if st:
+    if st and st.get("aborted"):
+        rec.count("iterations_aborted_by_exception")
+        for key, msg in st["viol"]:
+            rec.violation(key, msg)
+    if st and st["n"]:
         rec.nontrivial = True
         rec.count("iteration_end_events", st["n"])
         rec.count("rescale_factors_tests", st["rescale_tests"])
